@@ -217,7 +217,3 @@ def derived_header_cases(ctx, out, rng):
 def search(ctx):
     return run(ctx)
 
-
-def replay(ctx, path):
-    print(open(path).read()[:3000])
-    return 0
